@@ -400,6 +400,27 @@ def stage_structural_sweep(ctx: Ctx):
                         if d:
                             ctx.violation(f'pos|prim-put|{type(val).__name__}|{d[0].split(": ")[-1][:40]}', 'after putting a primitive to Constant.value the source parsed from scratch differs from the live tree',
                                           {**rec, 'result_src': root.src, 'diffs': d})
+            # (c3) slices put into deletion / assignment targets: what the statement can not take is refused, never written
+            for tsrc in ['del (a, b)\n', 'del [a, b], z\n', '(a, b) = x\n', 'for [a, b] in x: pass\n', 'with m as (a, b): pass\n', 'del a, b\n']:
+                for code_ in ['*c', 'f()', 'c.d, e[0]', '*c, d', '(g, h)', '1', 'i if j else k', '[*l]']:
+                    root = fst.FST(tsrc, 'exec')
+                    st = root.body[0]
+                    tgt = next((g_ for g_ in st.walk(True, self_=False) if isinstance(g_.a, (ast.Tuple, ast.List))), None)
+                    rec = {'src': tsrc, 'code': code_}
+                    try:
+                        if tgt is not None:
+                            tgt.put_slice(code_, 0, 1)
+                        else:
+                            st.put_slice(code_, 0, 1, 'targets')
+                    except Exception as e:
+                        d = reparse_diffs(root)
+                        if d:
+                            ctx.violation(f'sweep-raise-dirty|target-slice|{type(e).__name__}', 'a refused slice put into a target left an inconsistent tree', {**rec, 'error': repr(e)[:200], 'diffs': d})
+                        continue
+                    ctx.tick(('sweep-target-slice', tsrc, code_), 'sweep:target-slice')
+                    d = reparse_diffs(root)
+                    if d:
+                        ctx.violation('pos|target-slice', 'after a slice put into a deletion / assignment target the source parsed from scratch differs from the live tree (or does not parse)', {**rec, 'result_src': root.src, 'diffs': d})
             # (c2) the level of a relative import, also where the dots are all that stands between `from` and the module name
             for isrc in ['from.mod import x\n', 'from ..mod import x\n', 'from mod import x\n', 'from...é.b import (x)\n', 'if 1:\n  from. mod import x\n', 'from.\\\n mod import x\n', 'from . import x\n', 'from.import x\n',
                          'from\\\n ..mod import x\n']:
